@@ -174,7 +174,10 @@ def standin_search(prop, repo):
         except subprocess.TimeoutExpired:
             results.append(dict(b, status="timeout"))
             continue
+        known_seen = [l[6:] for l in r.stdout.strip().split("\n") if l.startswith("KNOWN ")]
         lines = [l for l in r.stdout.strip().split("\n") if not l.startswith("KNOWN ")]
+        if known_seen:
+            b = dict(b, known_finding_witnesses=known_seen)
         if r.returncode == 1 and lines and lines[0].startswith("FOUND "):
             d = os.path.join(VERIF, "replays", prop)
             os.makedirs(d, exist_ok=True)
